@@ -122,11 +122,29 @@ func c05GetDirected(c *core.Ctx) {
 		err error
 	}
 	out := make(chan res, 1)
+	// in a third of the scenarios another goroutine keeps asking for the consumer's Diff while the Get is blocked
+	// (a read-only call on the same consumer must never stand between the waiter and its wake-up)
+	differ := c.Rng.IntN(3) == 0
+	stopDiff := make(chan struct{})
+	defer close(stopDiff)
 	start := func() {
 		go func() {
 			v, err := cons.Get(ctx)
 			out <- res{v, err}
 		}()
+		if differ {
+			go func() {
+				for {
+					select {
+					case <-stopDiff:
+						return
+					default:
+					}
+					b.Diff(cons)
+					time.Sleep(30 * time.Microsecond)
+				}
+			}()
+		}
 	}
 	window := false
 	switch placement {
@@ -170,9 +188,9 @@ func c05GetDirected(c *core.Ctx) {
 		dump := core.DumpAll()
 		c.Violate("get-lost-wakeup", "Get still blocked %d heartbeats after %v; %s", c05Bound, events, desc)
 		c.SetDump(dump)
-		// unblock so the process can go on
+		// unblock so the process can go on (bounded: the library may be deadlocked)
 		cancel()
-		b.Put(context.Background(), -1)
+		go b.Put(context.Background(), -1)
 		core.AwaitChan(out, 2000)
 		return
 	}
@@ -239,7 +257,7 @@ func c05GetDirected(c *core.Ctx) {
 	}
 	c.Op("get", 1)
 	c.Op("event", len(events))
-	c.Sig("get", placement, events, outcome, window)
+	c.Sig("get", placement, events, outcome, window, differ)
 	if c.Index < 3 {
 		c.SetHistory(desc + " outcome=" + outcome)
 	}
